@@ -6,7 +6,8 @@ SPEC  Concurrency.tla: lock scopes of Cluster.Alerts/alertsHandler and informer 
       the gated attack schedules); start-up/shutdown life cycle (both ways from ready() into Shutdown(), a user
       Shutdown() at any time: NoSelfWait, EventuallyStopped, UserShutdownReturns), the informer fan-out of
       Cluster.run() (NoLoopVarRace, EveryInformerPushed) and concurrent failure checks over Window.Distribution
-      (ScratchIsPrivate, VerdictFromWindow), each with the alternative design refuted; Tracker.tla (non-eager)
+      (ScratchIsPrivate, VerdictFromWindow), the metrics store's RWMutex under AllMetrics and writers (StoreNeverStuck,
+      NoReentrantRLock), each with the alternative design refuted; Tracker.tla (non-eager)
       for the operation table.
 R     gated: the counterexample interleavings are forced on the real code through verifGate hooks.
 V     free-running executions under the Go race detector (tracker, metrics/monitor, alerts, informers,
@@ -26,7 +27,8 @@ def run(ctx):
                 "after becoming ready fails, must finish shutting down (Done() and a later Shutdown() within 10 s); fan-out: a Cluster "
                 "with 3 and with 2 informers publishes every informer's metric within 10 s of start-up; failure checks: windows of 8 "
                 "and 30 ping metrics, 3 versions each, per version 105 FailedMetric calls (5 in a row, 4 x 25 concurrent) after a "
-                "silence >= 30x the longest gap, then concurrent CheckPeers; gated: 3 Alerts/alertsHandler schedules (append in the sizing gap with 0 and 3 prior alerts, reset in "
+                "silence >= 20x the longest gap, then concurrent CheckPeers; store lock: CheckAll and AllMetrics against Add / RemovePeer / "
+                "RemovePeerMetrics, 5 goroutines x 20000 calls, stuck = no call returned for 15 s; gated: 3 Alerts/alertsHandler schedules (append in the sizing gap with 0 and 3 prior alerts, reset in "
                 "the gap at maxAlerts+1) and 2 informer schedules (shutdown between nil test and use), from TLC "
                 "counterexamples of the as-coded model; free-running under -race: tracker (6 callers x 150 random "
                 "Track/Untrack/Status/StatusAll/Recover/RecoverAll, with and without concurrent Shutdown), monitor "
@@ -43,8 +45,9 @@ def run(ctx):
     ctx.tlc("Concurrency.tla", "Concurrency_lifecycle.cfg", workers=2, timeout=600)
     ctx.tlc("Concurrency.tla", "Concurrency_fanout.cfg", workers=2, timeout=600)
     ctx.tlc("Concurrency.tla", "Concurrency_accrual.cfg", workers=2, timeout=600)
+    ctx.tlc("Concurrency.tla", "Concurrency_rwlock.cfg", workers=2, timeout=600)
     for cfg in ("Concurrency_alerts_ascoded.cfg", "Concurrency_informer_ascoded.cfg", "Concurrency_lifecycle_ascoded.cfg",
-                "Concurrency_lifecycle_peerserr_inline.cfg", "Concurrency_fanout_shared.cfg", "Concurrency_accrual_memo.cfg"):
+                "Concurrency_lifecycle_peerserr_inline.cfg", "Concurrency_fanout_shared.cfg", "Concurrency_accrual_memo.cfg", "Concurrency_rwlock_nested.cfg"):
         r = ctx.tlc("Concurrency.tla", cfg, workers=1, timeout=600, expect_violation=True, count=False)
         if not r.violation:
             raise vcheck.Infra("the as-coded model %s is expected to be refuted (attack schedules come from it)" % cfg)
